@@ -42,3 +42,7 @@ def run(rep: Report, repo: Repo, tier: str) -> None:
     # ... and that set does not depend on where (or whether) output is written
     with rep.isolated():
         fsrules.rule_mode_independence(rep, repo, "C13-R10")
+    # a subdirectory is auto-excluded exactly when it holds no (non-excluded, regular) CMake file of its own: the parent's probe
+    # and the directory's own check agree
+    with rep.isolated():
+        fsrules.rule_prechecks_filtered(rep, repo, "C13-R11")
